@@ -356,3 +356,39 @@ def corridor_timesteps(env: Any, states: Any) -> Any:
     fn = jax.jit(jax.vmap(lambda st: restart(observation=env._observation_from_state(st))))
     ts = fn(jax.tree_util.tree_map(jnp.asarray, states))
     return jax.tree_util.tree_map(lambda x: np.asarray(x), jax.device_get(ts))
+
+
+def ghost_states(env: Any, state0: Any, ghost: int = 0) -> Tuple[Any, List[Dict[str, int]]]:
+    """Ghost-pose injection: one copy of `state0` per (corridor cell, travel direction) of ghost `ghost`: the ghost
+    stands on the cell, its previous cell (`old_ghost_locations`) is the corridor cell behind it (wrap-around
+    included; combinations whose "behind" cell is a wall are skipped), its last action is that direction
+    (0 left, 1 up, 2 right, 3 down in the generator's (col, row) convention) and every ghost is released
+    (`ghost_starts = -1`).  Ghosts roam the whole maze in real play (the side tunnel included), so these poses are
+    reachable up to the positions of the other entities; the cells next to the tunnel exits are the interesting
+    ones.  Root timesteps are stale (injected_roots=True)."""
+    import jax
+
+    info = _info(env, state0)
+    wall = info["wall"]
+    H, W = wall.shape
+    s_np = jax.tree_util.tree_map(lambda x: np.asarray(x), state0)
+    step = {0: (0, -1), 1: (-1, 0), 2: (0, 1), 3: (1, 0)}  # action -> (d_row, d_col)
+    rows: List[Tuple[int, int, int, int, int]] = []
+    for r, c in np.argwhere(~wall):
+        for a, (dr, dc) in step.items():
+            pr, pc = (int(r) - dr) % H, (int(c) - dc) % W
+            if wall[pr, pc]:
+                continue
+            rows.append((int(r), int(c), a, pr, pc))
+    n = len(rows)
+    batched = jax.tree_util.tree_map(lambda x: np.repeat(x[None, ...], n, axis=0), s_np)
+    gl = np.asarray(batched.ghost_locations).copy()
+    og = np.asarray(batched.old_ghost_locations).copy()
+    ga = np.asarray(batched.ghost_actions).copy()
+    for i, (r, c, a, pr, pc) in enumerate(rows):
+        gl[i, ghost] = (c, r)  # stored (col, row)
+        og[i, ghost] = (pc, pr)
+        ga[i, ghost] = a
+    gs = np.full_like(np.asarray(batched.ghost_starts), -1)
+    batched = batched.replace(ghost_locations=gl, old_ghost_locations=og, ghost_actions=ga, ghost_starts=gs)
+    return batched, [{"ghost": ghost, "row": r, "col": c, "last_action": a} for r, c, a, _, _ in rows]
